@@ -1666,6 +1666,7 @@ func (w *transformingWriter) Write(data []byte) (n int, err error) {
 		if limit := int64(w.rw.op.methodConf.maxMsgBufferBytes); int64(len(data))+int64(w.buffer.Len()) > limit {
 			err := bufferLimitError(limit)
 			w.rw.reportError(err)
+			w.err = err // the partial message must not be processed on Close
 			return 0, err
 		}
 		return w.buffer.Write(data)
@@ -1725,7 +1726,9 @@ func (w *transformingWriter) Write(data []byte) (n int, err error) {
 }
 
 func (w *transformingWriter) Close() error {
-	if w.expectingBytes == -1 {
+	if w.expectingBytes == -1 && w.err != nil {
+		// already failed; nothing more to send
+	} else if w.expectingBytes == -1 {
 		if err := w.flushMessage(); err != nil {
 			w.rw.reportError(err)
 		}
